@@ -260,13 +260,15 @@ def rule_stub(spec, param='in'):
             c.add(R('AT_ENTRY(%s)' % param, 'stub-at-entry-iterator', ('C01', 'C02')))
         for extra in s.get('requires', []):
             c.add(extra)
-        c.add(A('IT_FIELDS(%s), g_turn, g_pos, g_done, g_iter, g_last, g_called[%d], g_ok[%d], g_len[%d], g_ncalls[%d], vf_exc, g_exc_obj, g_exc_type' % (param, i, i, i, i)))
+        c.add(A('IT_FIELDS(%s), g_turn, g_pos, g_done, g_iter, g_last, g_called[%d], g_ok[%d], g_len[%d], g_ncalls[%d], vf_exc, vf_exc_counter, g_exc_obj, g_exc_type' % (param, i, i, i, i)))
         c.add(E('BOOL01(RET) && BOOL01(g_ok[%d]) && BOOL01(vf_exc.pending) && BOOL01(g_done)' % i, 'stub'))
         c.add(E('PTRS_OK(%s) && CNT_POS(%s) && IN_END(%s)==OLD(IN_END(%s)) && IN_BEGIN(%s)==OLD(IN_BEGIN(%s))' % ((param,) * 6), 'stub'))
         c.add(E('MONO(%s)' % param, 'stub'))
         c.add(E('CNT_LT63(%s)' % param, 'stub'))   # counters stay below 2^63: entry < 2^62, window <= 4096, every rule moves them by at most the bytes it consumes (RC-POS)
         c.add(E('g_called[%d] == 1 && g_ncalls[%d] == SATINC(OLD(g_ncalls[%d])) && g_last == %d' % (i, i, i, i), 'stub'))
-        c.add(E('vf_exc.pending ==> (g_turn == T_NONE && vf_exc.obj == g_exc_obj && vf_exc.type == g_exc_type && g_exc_obj != 0)', 'stub'))
+        c.add(E('vf_exc.pending ==> (g_turn == T_NONE && vf_exc.obj == g_exc_obj && vf_exc.type == g_exc_type && g_exc_obj != 0'
+                ' && vf_exc.obj == OLD(vf_exc_counter) + 1 && vf_exc_counter == vf_exc.obj && vf_exc.nested_obj == 0)', 'stub'))
+        c.add(E('!vf_exc.pending ==> (g_exc_obj == OLD(g_exc_obj) && g_exc_type == OLD(g_exc_type) && vf_exc_counter == OLD(vf_exc_counter))', 'stub'))
         c.add(E('!vf_exc.pending ==> (RET == g_ok[%d])' % i, 'stub'))
         c.add(E('(!vf_exc.pending && g_ok[%d]) ==> (CONSUMED(%s) == g_len[%d] && g_turn == (%s) && g_pos == OFF(CUR(%s)) && g_done == 0 && g_iter == SATINC(OLD(g_iter)))'
                 % (i, param, i, s['next_ok'], param), 'stub'))
@@ -288,11 +290,11 @@ def rule_stub(spec, param='in'):
 def comb_requires(param='in'):
     return R('VALID_PRE(%s) && EXC_OK && g_turn == 0 && g_pos == OFF(CUR(%s)) && g_done == 0 && g_iter == 0 && AT_ENTRY(%s)'
              ' && g_called[0]==0 && g_called[1]==0 && g_called[2]==0 && g_called[3]==0'
-             ' && g_ncalls[0]==0 && g_ncalls[1]==0 && g_ncalls[2]==0 && g_ncalls[3]==0 && g_exc_obj == 0' % (param, param, param))
+             ' && g_ncalls[0]==0 && g_ncalls[1]==0 && g_ncalls[2]==0 && g_ncalls[3]==0 && g_exc_obj == 0 && vf_exc_counter < 1000000' % (param, param, param))
 
 
 def comb_assigns(param='in'):
-    return A('IT_FIELDS(%s), g_turn, g_pos, g_done, g_iter, g_last, g_called, g_ok, g_len, g_ncalls, vf_exc, g_exc_obj, g_exc_type' % param)
+    return A('IT_FIELDS(%s), g_turn, g_pos, g_done, g_iter, g_last, g_called, g_ok, g_len, g_ncalls, vf_exc, vf_exc_counter, g_exc_obj, g_exc_type' % param)
 
 
 def comb_common(m, param='in', props_rewind=('C02',), exc_props=('C05',)):
@@ -312,4 +314,4 @@ def comb_harness(intype_c, tracking, call):
     return input_harness(intype_c, tracking, call,
                          pre_call='  SET_ENTRY(&in); g_turn = 0; g_pos = OFF(CUR(&in)); g_done = 0; g_iter = 0; g_exc_obj = 0;\n'
                                   '  for (int i = 0; i < NR; ++i) { g_called[i] = 0; g_ncalls[i] = 0; }\n'
-                                  '  vf_exc.pending = 0;\n')
+                                  '  vf_exc.pending = 0; __CPROVER_assume(vf_exc_counter < 1000000);\n')
